@@ -1626,6 +1626,20 @@ def check_C14(tier):
             for spelling in ("abs", "trailing", "dot"):
                 extra.append({"nodes": nodes, "follow": tname == "links", "min": -1, "max": -1, "rooted": False, "walk_from": index[base],
                               "base": spelling, "layers": [], "tree": tname, "origin": "library", "desc": "path walk of %s in tree %s (%s)" % (base, tname, spelling)})
+    # a base given relative to the current directory, with and without a leading `.` component (`root/a`, `./root/a`):
+    # the root segment is the directory as given
+    for tname in ("plain", "deep"):
+        nodes, index = W.tree(W.TREES[tname])
+        for base in ("root", "root/a"):
+            for spelling in ("rel", "reldot"):
+                for g in (None, "**", "a/**", "b/**", "*/*", "a/b/*", "**/*.txt" if tname == "plain" else "**/g"):
+                    h = {"nodes": nodes, "follow": False, "min": -1, "max": -1, "rooted": False, "walk_from": index[base],
+                         "base": spelling, "layers": [], "tree": tname, "origin": "library",
+                         "desc": "%s from %s in tree %s (base spelled %s)" % ("path walk" if g is None else "glob %r" % g, base, tname,
+                                                                             "relative to the current directory" if spelling == "rel" else "with a leading ./")}
+                    if g is not None:
+                        h["glob"] = C.cps(g)
+                    extra.append(h)
     scenarios += extra
     for i, h in enumerate(scenarios):
         h["sid"] = i + 1
@@ -1922,6 +1936,11 @@ def check_C20(tier):
     nodes, index = W.tree({"locked": ("locked", {"x": None})})
     scenarios.append({"sid": len(scenarios) + 1, "nodes": nodes, "follow": False, "min": -1, "max": -1, "rooted": False, "walk_from": index["root/locked"],
                       "base": "abs", "layers": [], "tree": "rootlocked", "origin": "library", "desc": "path walk of an unreadable directory"})
+    # the product of the dimensions over the trees with faults and links: walk kind x link behaviour x depth behaviour x
+    # stacks of filters and negations; judged by trace validation (one error item per fault that the walk reaches, in
+    # place, past every layer)
+    for h in W.product_scenarios(random.Random(C.SEED + 20), 90 if tier == "quick" else 900, len(scenarios) + 1, trees=("faults", "links", "faults")):
+        scenarios.append(dict(h, trace_only=True))
     pivots = W.prepare_glob_scenarios(scenarios)
     for h in scenarios:
         if h.get("glob") is None:
